@@ -180,6 +180,26 @@ func genC10Base(g G, small bool) (*World, Invocation, []RefOpt) {
 		opts.Octopus = false
 	}
 	w := GenWorld(g, opts)
+	if !small && g.Rare(1, 6, "manyobjects") {
+		// more requests than any buffer between git-sizer's feeder goroutines
+		// and git holds (bufio 4 KiB = 100 object ids): a long chain of
+		// commits and many references
+		n := g.Int(110, 420, "chainlen")
+		var prev string
+		for i := 0; i < n; i++ {
+			cs := CommitSpec{Tree: EmptyTreeID, Author: ident("A", int64(1300000000+i), "+0000"), Committer: ident("C", int64(1300000000+i), "+0000"), Message: fmt.Sprintf("chain %d\n", i)}
+			if prev != "" {
+				cs.Parents = []string{prev}
+			}
+			prev = w.Add(NewObject(KCommit, EncodeCommit(cs))).ID
+			if i%3 == 0 && g.Bool("chainref") || i == n-1 {
+				name := fmt.Sprintf("refs/heads/chain/%04d", i)
+				if !refConflicts(refSet(w), name) {
+					w.Refs = append(w.Refs, Ref{Name: name, OID: prev})
+				}
+			}
+		}
+	}
 	gm := NewGroupModel()
 	refopts := GenRefOpts(g, w, gm, InvOpts{RefOpts: true, Regexps: true, MaxRefOpts: 2})
 	roots := GenRoots(g, w)
@@ -513,6 +533,37 @@ func enumerateC10(c *Ctx, sc0 *Scenario) *enumResult {
 					}
 				}
 			}
+		}
+	}
+	// a sample of the enumerated points is judged again by real processes
+	// (engine B): exit statuses and signals as exec.Cmd and go-pipe really see them
+	if os.Getenv("VERIF_GITSIZER_BIN") != "" && !hasArg(sc0.Inv.Args, "--progress") {
+		b := *sc0
+		b.Plan = Plan{Peers: map[string]*PeerPlan{}}
+		rb := RunB(&b, site, BOpts{})
+		if !rb.Failed && !rb.Hang && rb.Panic == "" {
+			n := 0
+			for _, kind := range peerKinds {
+				total, seen := totals[kind]
+				if !seen {
+					continue
+				}
+				for _, off := range []int{0, total / 2, total, -1} {
+					dk := four[(n+off+len(kind))%4]
+					if off < 0 {
+						off = -1
+					}
+					f := dk
+					f.AtByte, f.StdinLines = off, -1
+					sc := *sc0
+					sc.Plan = Plan{Peers: map[string]*PeerPlan{kind: {PipeCap: -1, Faults: []Fault{f}}}}
+					n++
+					if v := runFaultedB(c, &sc, site, rb.Stdout); v != nil {
+						return &enumResult{&sc, v}
+					}
+				}
+			}
+			c.Stats.Extra["enum_points_mirrored_on_engine_B"] += float64(n)
 		}
 	}
 	c.Stats.Probe("enum-worlds")
